@@ -184,6 +184,13 @@ Print Assumptions C15_gossip_done.
    nothing on the model's own observation: whatever it flags on the implementation is a
    deviation from the behaviour the theorems above describe. *)
 Theorem C15_checker_accepts_model : forall i roles pr evs,
-  case_violations (mkCase i roles pr evs (run_obs pr init evs)) = [].
+  case_violations (mkCase i 0 roles pr evs (run_obs pr init evs)) = [].
 Proof. exact checker_accepts_model. Qed.
 Print Assumptions C15_checker_accepts_model.
+
+(* The same for the final-view clause used on concurrent runs (mode <> 0: only the views after
+   all calls returned are observed; an empty observation means a call never returned). *)
+Theorem C15_checker_accepts_final : forall i m roles pr evs, m <> 0 ->
+  case_violations (mkCase i m roles pr evs [final_obs pr evs]) = [].
+Proof. exact checker_accepts_final. Qed.
+Print Assumptions C15_checker_accepts_final.
